@@ -152,3 +152,21 @@ def _pp_post(a, ret, st):
 
 
 pp.ensures("sub:RetrospectivePlateGenerator._generate_plates", _pp_post)
+
+
+# ---- Screen.concat (list length concrete per variant: 1, 2 screens; contents symbolic): rows of every screen, in order
+from pyvc.spec import TPyList
+sct = contract(SCREEN + ".concat", params=[("cls", TClass(SCREEN)), ("screens", TPyList(T_screen(2)))])
+sct.variants = [("screens%d" % n, [("cls", TClass(SCREEN)), ("screens", TPyList(*[T_screen(2) for _ in range(n)]))]) for n in (1, 2)]
+sct.requires(lambda a: [f for s_ in a.screens.items for f in screen_wf(s_)])
+sct.raises("ValueError", lambda a: z3.BoolVal(True), iff=False)  # combine / the constructor may refuse the union (not claimed)
+
+
+def _sct_post(a, ret, st):
+    items = a.screens.items
+    if len(items) == 1:
+        return [("single_screen_returned_as_is", z3.BoolVal(ret is items[0]))]
+    return concatenated(ret, items[0], items[1])
+
+
+sct.ensures("rows_of_every_screen_in_order", _sct_post)
